@@ -18,7 +18,7 @@ use std::sync::{Arc, OnceLock};
 pub const NKEYS: usize = 6;
 /// key index of the point at infinity
 pub const INF: u8 = NKEYS as u8;
-pub const NMSGS: usize = 5;
+pub const NMSGS: usize = 8;
 
 pub struct Pool {
     pub sks: Vec<SecretKey>,
@@ -43,8 +43,17 @@ pub fn pool() -> &'static Pool {
             sks.push(sk);
         }
         pks.push(PublicKey::default());
-        let msgs: Vec<Vec<u8>> = vec![vec![], b"a".to_vec(), b"a".to_vec(), vec![0x6a; 32], vec![7u8; 100]];
-        let msg_class = vec![0, 1, 1, 3, 4];
+        let msgs: Vec<Vec<u8>> = vec![
+            vec![],
+            b"a".to_vec(),
+            b"a".to_vec(),
+            vec![0x6a; 32],
+            vec![7u8; 100],
+            (0..300u32).map(|i| (i % 251) as u8).collect(),
+            (0..1100u32).map(|i| (i % 241) as u8).collect(),
+            vec![0u8; 48],
+        ];
+        let msg_class = vec![0, 1, 1, 3, 4, 5, 6, 7];
         let mut sigs = vec![];
         let mut gts = vec![];
         for k in 0..NKEYS {
@@ -570,16 +579,20 @@ fn gen_pairs(rng: &mut Rng, keyspace: usize, n: usize, allow_inf: bool) -> Vec<P
 }
 
 pub fn gen_query(rng: &mut Rng, keyspace: usize) -> Query {
-    let n = match rng.below(10) {
-        0 => 0,
-        1..=4 => 1,
-        5..=7 => 2,
-        8 => 3,
-        _ => 4,
+    let n = match rng.below(40) {
+        0..=3 => 0,
+        4..=19 => 1,
+        20..=31 => 2,
+        32..=35 => 3,
+        36..=38 => 4,
+        _ => rng.range(5, 20) as usize, // long pair lists (rare: each pair costs a pairing)
     };
     let mut pairs = gen_pairs(rng, keyspace, n, true);
     if n >= 2 && rng.chance(1, 6) {
         pairs[1] = pairs[0]; // repeated pair
+        if n >= 3 && rng.chance(1, 2) {
+            pairs[2] = pairs[0]; // three times
+        }
     }
     let honest: Vec<Pair> = pairs.iter().copied().filter(|p| p.0 < INF).collect();
     let sig = match rng.below(17) {
@@ -744,7 +757,7 @@ impl Engine for C15 {
 
     fn generate(&self, rng: &mut Rng, tier: Tier) -> Case {
         let deep = tier == Tier::Thorough && rng.chance(1, 4);
-        let capacity = if deep { *rng.pick(&[1u32, 2, 3, 4, 6, 8]) } else { *rng.pick(&[1u32, 1, 2, 2, 3, 5, 64]) };
+        let capacity = if deep { *rng.pick(&[1u32, 2, 3, 4, 6, 8, 16]) } else { *rng.pick(&[1u32, 1, 2, 2, 3, 5, 7, 64, 300]) };
         let keyspace = *rng.pick(&[2usize, 3, NKEYS]);
         let nthreads = if deep { rng.range(3, 6) as usize } else { rng.range(2, 4) as usize };
         // swarm: per-run op weights (verify, update, evict, len, clone-verify)
